@@ -1,7 +1,7 @@
 """C12 - no mutation while iterating; released when iteration ends (structural clauses)."""
 import re
 
-from kern import CallGraph, branch_edges, calls_by_name, calls_to, callers, origins, outcome_edges, short_fn, top_fn
+from kern import CallGraph, branch_edges, calls_by_name, calls_to, callers, forward_locals, origins, outcome_edges, short_fn, top_fn
 
 DESCRIPTION = ("C12 clauses decided: R1 every structured loop exit (exhaustion, break, continue-exhaustion, return) "
                "reaches iter_stop (must-pass-through on the MIR of the 4 handlers and dominance in the return emitter); "
@@ -294,8 +294,86 @@ def r6_views(ctx, F):
         ctx.ok("C12.R6", "no-view-across-callback", "%d unlocked list views inspected, none live across a user callback" % n_views)
 
 
+INVOKES = re.compile(r"Value::<'v>::invoke(_pos|_with_loc|_method)?$|Evaluator::<'v, 'a, 'e>::eval_function$|"
+                     r"StarlarkCallable.*::invoke\w*$")
+ITERATES = re.compile(r"::iterate$")
+ITER_ADAPTERS = re.compile(r"(Try>::branch$|IntoIterator(>)?::into_iter$|Iterator(>)?::(map|filter|filter_map|enumerate|zip|chain|"
+                           r"peekable|skip|take|rev|fuse|inspect|cloned|copied|by_ref)$|FromResidual|Result::<.*>::(ok|unwrap\w*|expect)$)")
+ITER_CONSUMERS = re.compile(r"(Iterator(>)?::(collect|fold|count|last|for_each|sum|product|max\w*|min\w*|all|any|find\w*|"
+                            r"position|try_fold|try_for_each|unzip|partition|nth)$|FromIterator(<.*>)?(>)?::from_iter$|"
+                            r"Extend(<.*>)?(>)?::extend$|Vec::<.*>::extend$|iter::IntoIterator>::into_iter$.*collect|"
+                            r"itertools::Itertools>::\w+$|mem::drop$)")
+
+
+def _reaches_invoke(F, g, depth=4, _seen=None):
+    _seen = set() if _seen is None else _seen
+    if g.uid in _seen or depth < 0:
+        return False
+    _seen.add(g.uid)
+    for h in [g] + list(F.closures_of(g)):
+        for c in h.calls:
+            if c.indirect or c.bb in h.cleanup:
+                continue
+            if INVOKES.search(c.name):
+                return True
+            k = F.fns.get(c.callee_uid())
+            if k is not None and k.crate == "starlark" and re.search(r"/stdlib/|/values/types/", k.span) \
+                    and _reaches_invoke(F, k, depth - 1, _seen):
+                return True
+    return False
+
+
+def r5_callbacks_under_iteration(ctx, F):
+    """a builtin that consumes an iterable and calls back into Starlark (key=, func) keeps the iterator alive while it
+    calls back: the iterator is the lock. If the iterator is drained into a Rust collection first, the callbacks run
+    with the container unlocked and can mutate it."""
+    from kern import natives
+    n = 0
+    for nat in natives(F):
+        if nat.impl is None or not _reaches_invoke(F, nat.impl):
+            continue
+        work, seen = [nat.impl], {}
+        while work and len(seen) < 40:
+            g = work.pop()
+            if g.uid in seen:
+                continue
+            seen[g.uid] = g
+            for c in g.calls:
+                k = F.fns.get(c.callee_uid()) if not c.indirect else None
+                if k is not None and k.crate == "starlark" and "/stdlib/" in k.span:
+                    work.append(k)
+        for h in seen.values():
+            its = [c for c in h.calls if ITERATES.search(c.name) and c.bb not in h.cleanup
+                   and "Iterator" in h.locals.get(c.dest_local, "") + c.full]
+            if not its:
+                continue
+            n += 1
+            bad = None
+            for it in its:
+                t = forward_locals(h, [it.dest_local], pass_calls=ITER_ADAPTERS)
+                cons = [c for c in h.calls if c.bb not in h.cleanup and ITER_CONSUMERS.search(c.name)
+                        and any(re.match(r"move (_\d+)$", a) and a.split()[1] in t for a in c.args)]
+                for c in cons:
+                    later = h.after(c.bb)
+                    for d in h.calls:
+                        if d.indirect or d.bb in h.cleanup or d.bb == c.bb or d.bb not in later:
+                            continue
+                        k = F.fns.get(d.callee_uid())
+                        if INVOKES.search(d.name) or (k is not None and k.crate == "starlark" and _reaches_invoke(F, k)):
+                            bad = (c, d)
+            ctx.check(bad is None, "C12.R5", "callbacks-under-iteration:%s:%s" % (nat.name, short_fn(h.qpath)),
+                      "no Starlark callback runs after the iterator of the consumed container was drained",
+                      "`%s` drains the iterator of its iterable argument (`%s`) and only then calls back into Starlark "
+                      "(`%s`): the container is unlocked during the callbacks, so a key/func that mutates it through an "
+                      "alias succeeds instead of failing" % (nat.name, bad[0].name.split("::")[-1] if bad else "",
+                                                            short_fn(bad[1].name) if bad else ""), fn=h,
+                      line=bad[1].line if bad else None)
+    ctx.floor("C12.R5", "builtins that iterate an argument and call back", n, 5, inventory=True)
+
+
 def run(ctx):
     F = ctx.facts("core")
+    r5_callbacks_under_iteration(ctx, F)
     r6_views(ctx, F)
     r1_exits(ctx, F)
     r2_error_exit(ctx, F)
